@@ -38,13 +38,29 @@ pub enum Stop {
     KillAfterPause(u8),
     /// SIGTERM after all answers have been read (clean stop)
     Term,
+    /// SIGKILL after all answers have been read and a pause of so many milliseconds
+    KillAfterMs(u16),
 }
 
 #[derive(Clone, Debug, PartialEq, Serialize, Deserialize)]
 pub struct Case {
     pub writes: Vec<W>,
     pub stop: Stop,
+    /// (position, milliseconds): the client pauses before the request at this position (lets a
+    /// periodic flush happen in the middle of the history; used by the JSON-mode part of C10)
+    #[serde(default)]
+    pub pause_at: Option<(u16, u16)>,
 }
+
+/// persistence backend of the server process and its flush interval in seconds
+#[derive(Clone, Copy, Debug)]
+pub struct Backend {
+    pub mode: &'static str,
+    pub interval_s: u64,
+    pub prop: &'static str,
+}
+
+pub const REDB: Backend = Backend { mode: "ReDB", interval_s: 3600, prop: "C18" };
 
 #[derive(Clone)]
 struct State {
@@ -112,15 +128,14 @@ async fn read_state(s: &mut Session) -> Result<BTreeMap<String, (Value, u64)>, F
     Ok(out)
 }
 
-async fn run_case(case: &Case, kfs: &KnownFindings) -> Result<CaseReport, Failure> {
-    thread_local! {
-        static DIR: std::path::PathBuf = scratch_dir("C18").join(format!("{:?}", std::thread::current().id()).replace(['(', ')'], ""));
-    }
-    let base = DIR.with(|d| d.clone());
+async fn run_case(case: &Case, kfs: &KnownFindings, backend: Backend) -> Result<CaseReport, Failure> {
+    let base = scratch_dir(backend.prop).join(format!("proc-{:?}", std::thread::current().id()).replace(['(', ')'], ""));
     let dir = crate::persist::fresh_dir(&base, "data");
     let sock = base.join("wb.sock");
     let mut rep = CaseReport::default();
-    let mut proc1 = ServerProc::spawn(&dir, &sock, "ReDB", &[]).map_err(|e| Failure::new("c18.spawn", "server process starts", e).sig(json!({"obs": "timeout"})))?;
+    let interval = backend.interval_s.to_string();
+    let env = [("WORTERBUCH_PERSISTENCE_INTERVAL", interval.as_str())];
+    let mut proc1 = ServerProc::spawn(&dir, &sock, backend.mode, &env).map_err(|e| Failure::new("c18.spawn", "server process starts", e).sig(json!({"obs": "timeout"})))?;
     let mut s = Session::connect(&sock).await.map_err(|e| Failure::new("c18.connect", "welcome", e))?;
     let me_str = s.client_id();
     let me: Cid = uuid::Uuid::parse_str(&me_str).map(|u| u.as_u128()).unwrap_or(1);
@@ -133,6 +148,8 @@ async fn run_case(case: &Case, kfs: &KnownFindings) -> Result<CaseReport, Failur
     // pdelete: the order of its single-key deletes is only known from its answer: (request index, first state index, keys)
     let mut pdeletes: Vec<(usize, usize, Vec<Path>)> = vec![];
     let mut lines = String::new();
+    // byte offset of every request in `lines`
+    let mut offsets: Vec<usize> = vec![];
     let mut m = World::new();
     let mut fx = Effects::default();
     let mut cas_ge2 = false;
@@ -223,6 +240,7 @@ async fn run_case(case: &Case, kfs: &KnownFindings) -> Result<CaseReport, Failur
             }
         };
         after_req.push(states.len() - 1);
+        offsets.push(lines.len());
         lines.push_str(&msg.to_string());
         lines.push('\n');
     }
@@ -231,11 +249,33 @@ async fn run_case(case: &Case, kfs: &KnownFindings) -> Result<CaseReport, Failur
         Stop::KillAfterAck(i) => Some(map_idx(*i, n)),
         _ => None,
     };
-    if !s.send_raw(lines.as_bytes()).await {
+    let mut answers: BTreeMap<u64, Value> = BTreeMap::new();
+    // an optional pause of the client in the middle of the history (before the stop point)
+    let cut = case.pause_at.map(|(p, ms)| (map_idx(p, n), ms)).filter(|(c, _)| *c >= 1 && kill_after.map(|k| *c <= k).unwrap_or(true));
+    let mut sent_from = 0usize;
+    if let Some((c, ms)) = cut {
+        if !s.send_raw(lines[..offsets[c]].as_bytes()).await {
+            return Err(Failure::new("c18.write", "requests are accepted", "write failed"));
+        }
+        sent_from = offsets[c];
+        while !answers.contains_key(&(c as u64)) {
+            match s.recv(Duration::from_secs(20)).await {
+                Recv::Msg(v) => {
+                    if let Some((_, t)) = kind_and_tid(&v) {
+                        answers.insert(t, v);
+                    }
+                }
+                Recv::Closed => return Err(Failure::new("c18.session", "the session stays open", "closed")),
+                _ => return Err(Failure::new("c18.answers", "answers within 20 s", "timeout").sig(json!({"obs": "timeout"}))),
+            }
+        }
+        tokio::time::sleep(Duration::from_millis(ms as u64)).await;
+        rep.classes.push("client_paused_in_the_middle");
+    }
+    if !s.send_raw(lines[sent_from..].as_bytes()).await {
         return Err(Failure::new("c18.write", "requests are accepted", "write failed"));
     }
     // read answers up to the stop point
-    let mut answers: BTreeMap<u64, Value> = BTreeMap::new();
     let wait_for = kill_after.map(|k| k as u64 + 1).unwrap_or(n as u64);
     while !answers.contains_key(&wait_for) {
         match s.recv(Duration::from_secs(20)).await {
@@ -255,6 +295,11 @@ async fn run_case(case: &Case, kfs: &KnownFindings) -> Result<CaseReport, Failur
         }
         Stop::KillAfterPause(p) => {
             tokio::time::sleep(Duration::from_micros(*p as u64 * 100)).await;
+            proc1.kill();
+            false
+        }
+        Stop::KillAfterMs(ms) => {
+            tokio::time::sleep(Duration::from_millis(*ms as u64)).await;
             proc1.kill();
             false
         }
@@ -288,7 +333,7 @@ async fn run_case(case: &Case, kfs: &KnownFindings) -> Result<CaseReport, Failur
         }
     }
     // restart on the same directory and read back
-    let mut proc2 = ServerProc::spawn(&dir, &sock, "ReDB", &[]).map_err(|e| Failure::new("c18.respawn", "server restarts on the data directory", e).sig(json!({"obs": "c18.respawn"})))?;
+    let mut proc2 = ServerProc::spawn(&dir, &sock, backend.mode, &env).map_err(|e| Failure::new("c18.respawn", "server restarts on the data directory", e).sig(json!({"obs": "c18.respawn"})))?;
     let mut s2 = Session::connect(&sock).await.map_err(|e| Failure::new("c18.connect", "welcome", e))?;
     let got = read_state(&mut s2).await;
     proc2.kill();
@@ -342,7 +387,7 @@ async fn run_case(case: &Case, kfs: &KnownFindings) -> Result<CaseReport, Failur
             format!("{got:?}"),
         )
         .sig(sig);
-        match kfs.matching("C18", &f.signature) {
+        match kfs.matching(backend.prop, &f.signature) {
             Some(k) => {
                 rep.kf.push(k.id.clone());
                 return Ok(rep);
@@ -369,7 +414,11 @@ async fn run_case(case: &Case, kfs: &KnownFindings) -> Result<CaseReport, Failur
 }
 
 pub fn check_case(case: &Case, kfs: &KnownFindings) -> Result<CaseReport, Failure> {
-    match block_on(run_case(case, kfs)) {
+    check_case_on(case, kfs, REDB)
+}
+
+pub fn check_case_on(case: &Case, kfs: &KnownFindings, backend: Backend) -> Result<CaseReport, Failure> {
+    match block_on(run_case(case, kfs, backend)) {
         Err(f) if f.signature.get("obs").and_then(|o| o.as_str()) == Some("timeout") => Ok(CaseReport { inconclusive: true, ..Default::default() }),
         other => other,
     }
@@ -401,6 +450,12 @@ fn pat() -> BoxedStrategy<String> {
 }
 
 fn case(max: usize, known_shapes: bool) -> BoxedStrategy<Case> {
+    (writes(max, known_shapes), prop_oneof![5 => any::<u16>().prop_map(Stop::KillAfterAck), 2 => (0..50u8).prop_map(Stop::KillAfterPause), 3 => Just(Stop::Term)])
+        .prop_map(|(writes, stop)| Case { writes, stop, pause_at: None })
+        .boxed()
+}
+
+pub fn writes(max: usize, known_shapes: bool) -> BoxedStrategy<Vec<W>> {
     let val = || crate::ops::small_value();
     let mut alts: Vec<(u32, BoxedStrategy<W>)> = vec![
         (12, (key(), val()).prop_map(|(k, v)| W::Set(k, v)).boxed()),
@@ -415,12 +470,7 @@ fn case(max: usize, known_shapes: bool) -> BoxedStrategy<Case> {
         alts.push((1, Just(W::DeleteLastWill).boxed()));
     }
     let w = proptest::strategy::Union::new_weighted(alts);
-    (
-        proptest::collection::vec(w, 1..=max),
-        prop_oneof![5 => any::<u16>().prop_map(Stop::KillAfterAck), 2 => (0..50u8).prop_map(Stop::KillAfterPause), 3 => Just(Stop::Term)],
-    )
-        .prop_map(|(writes, stop)| Case { writes, stop })
-        .boxed()
+    proptest::collection::vec(w, 1..=max).boxed()
 }
 
 pub fn run(cfg: &RunCfg) -> i32 {
